@@ -44,7 +44,8 @@ class FuncInfo:
         return f'teneva/{self.module}.py:{lineno if lineno is not None else self.lines[0]}'
 
     def describe(self):
-        return {'function': f'teneva/{self.module}.py:{self.qual}', 'lines': list(self.lines), 'sha256': self.sha}
+        return {'function': f'teneva/{self.module}.py:{self.qual}', 'lines': list(self.lines), 'sha256': self.sha,
+                'sha256_16': self.sha[:16]}
 
 
 class ModuleInfo:
